@@ -79,6 +79,23 @@ def storeOpsFrom (o : Opts) : HMap → List SOp → Option (List Store.Op)
 def storeOps (o : Opts) (trace : List SOp) : Option (List Store.Op) :=
   (storeOpsFrom o {} trace).map (Store.Op.cifNew :: ·)
 
+/-- the container whose loop the call creates / fills -/
+def lastPath : Option SOp → Option Path
+  | some (.mkLoop p _) => some p
+  | some (.addPkt p _) => some p
+  | _ => none
+
+/-- parse_loop: cif_container_create_loop, then the packets of that loop, no other store call in between — every
+    cif_loop_add_packet directly follows the create_loop / add_packet of the same container.  Hypothesis of the composition theorems
+    (`C03_parser_store_refines_covered_partial`) as long as it is not proved of every trace; evaluated by the driver on every
+    request of family `parse` (`sto=BADshape`). -/
+def shapedFrom : Option SOp → List SOp → Bool
+  | _, [] => true
+  | last, op :: r =>
+    (match op with
+     | .addPkt p _ => lastPath last == some p
+     | _ => true) && shapedFrom (some op) r
+
 /-- the store after the history, and whether every call returned CIF_OK -/
 def storeRun (ops : List Store.Op) : Option Store.Store × Bool :=
   let (w, rs) := Store.run {} ops
